@@ -373,5 +373,5 @@ LEVEL_TEXT = ('Model-based generated histories (construct / call in three autogr
               'computed as the first call of a fresh interpreter. Thread interleavings are stressed with real thread pools, not '
               'enumerated.')
 LEVEL_NOTE = ('Exploration only: the harness does not own the thread schedule, so races that need a rare interleaving can be missed; '
-              'goldens trust process isolation and bitwise-deterministic CPU kernels (mismatches <= 4 ulp are counted, not failed).')
+              'goldens trust process isolation and bitwise-deterministic CPU kernels (mismatches up to 64 ulp of the largest value are counted, not failed).')
 TECHNIQUE = 'model-based / stateful property-based testing (Hypothesis operation sequences) against fresh-interpreter goldens'
